@@ -83,6 +83,10 @@ func runC01(p *chk.Prog, r *chk.Report) {
 	c01Args(p, r)
 	c01Rekey(p, r)
 	c01KeyLifetime(p, r)
+	// an address leaves a Service only together with its recorded status: every release in the controller goes through
+	// clearServiceState or is one of the reviewed direct Unassign sites (UNASSIGN-OWN-KEY, shared with C03); a release
+	// that leaves the status behind lets a second Service record the same address
+	c03Unassign(p, r)
 	pureCheckRule(p, r.Rule("CHECK-PURE", "D ownership (effects)", "the functions that only judge whether an address may be used - (*Allocator).checkSharing, sharingOK, poolFor, (*Allocator).isPoolCompatibleWithService - store nothing outside their own local variables: no assignment through a pointer, into a field, a map or slice element of something they were given or loaded, no delete, no ++/-- on such a place (the candidate search calls them for addresses it then does not take; the recorded keys are shared with the allocations through pointers)", 3),
 		[][3]string{{allocPkg, "Allocator", "checkSharing"}, {allocPkg, "", "sharingOK"}, {allocPkg, "", "poolFor"}, {allocPkg, "Allocator", "isPoolCompatibleWithService"}})
 }
